@@ -236,6 +236,40 @@ def check_tl_bytes(case):
     return None      # raising or returning are both fine here; only the bound matters
 
 
+def _tl_str(b):
+    n = len(b)
+    head = bytes([n]) if n < 254 else b'\xfe' + n.to_bytes(3, 'little')
+    return head + b + b'\x00' * (-(len(head) + n) % 4)
+
+
+def enum_tl_nesting(tier):
+    """objects nested through `bytes` fields d levels deep, each level's payload = [the inner object][k trailing bytes that are no
+    object] / = [inner][inner] / = the inner object alone: the parser looks into such payloads (auto-deserialisation); however it
+    walks them, the work stays linear in the input - a payload is not parsed again for every level above it"""
+    from harness.props import c14
+    hosts = [n for n in ('adnl.message.custom', 'liteServer.query', 'adnl.message.answer') if n in c14.SUPPORTED]
+    for host in hosts[:2]:
+        cid = c14.SCH.ctor(host).id_le
+        args = c14.SCH.ctor(host).args
+        if [a.type for a in args] != [('prim', 'bytes')]:
+            continue
+        for depth in (8, 12, 16, 20, 24, 30, 40, 60):
+            for shape in ('trailing-junk', 'twice', 'alone', 'leading-junk'):
+                inner = cid + _tl_str(b'\x01\x02\x03')
+                for _ in range(depth):
+                    if shape == 'trailing-junk':
+                        payload = inner + b'\xde\xad\xbe\xef'
+                    elif shape == 'twice':
+                        payload = inner + inner if len(inner) < 4000 else inner
+                    elif shape == 'leading-junk':
+                        payload = b'\xde\xad\xbe\xef' + inner
+                    else:
+                        payload = inner
+                    inner = cid + _tl_str(payload)
+                if len(inner) <= 20000:
+                    yield {'raw': inner.hex(), 'shape': f'{shape}/depth={depth}'}
+
+
 def strat_tl(tier):
     from harness.props import c14
     with_counts = [n for n in c14.SUPPORTED if any(a.type[0] == 'vector' or a.type in (('prim', 'bytes'), ('prim', 'string'))
@@ -357,6 +391,8 @@ SUBCHECKS = [
         case_cpu_s=10, timeout_is_violation=True,
         note='valid TL encodings (reference encoder) with vector counts / string length prefixes / flags rewritten to huge values, '
              'optionally truncated; and constructor id + arbitrary words'),
+    Sub('tl-parser-nested-bytes-payloads', check_tl_bytes, enum=enum_tl_nesting, classify=lambda c: [c['shape']], nontrivial=lambda c: True,
+        shards=(8, 8), case_cpu_s=10, note='objects nested 8..60 deep through bytes fields; payload = inner object + trailing junk / twice / alone'),
     Sub('dict-parser-ladders', check_dict_tree, enum=enum_dict_ladders, classify=classify_dict, shards=(4, 4), case_cpu_s=10,
         timeout_is_violation=True, note='full 2^h-entry dictionaries as ladders h=1..12, with matching and non-matching key lengths'),
     Sub('dict-parser-arbitrary-trees', check_dict_tree, strategy=strat_dict, classify=classify_dict, n=(1500, 40000), shards=(8, 32),
